@@ -6,6 +6,7 @@ mod common;
 mod findings;
 mod ksim;
 mod tsim;
+mod wsim;
 mod lsim;
 mod mon;
 mod prng;
